@@ -374,3 +374,28 @@ SPECS["C15"] = {
     "assumptions": ["pre-emptions only at discovered racy sites", "deterministic schedule in the transparency harness"],
     "outside": ["telnet debug server and CLI", "sinks on several workers under debugging", "breakonstart/breakonerror flags"],
 }
+
+SPECS["C08"] = {
+    "explanation": "Real Parse -> PrettyPrint -> Parse -> PrettyPrint on (a) operator shapes chosen symbolically (15 binary x 15 binary operators, either side "
+                   "parenthesised; 3 prefix operators over/under binary ones), (b) 31 statement templates nested in 4 block kinds, (c) string literals with N symbolic "
+                   "body bytes over {a,\",',\\,{,},newline} in the four literal forms; asserted: printed text parses, trees equal up to positions/comments incl. raw-vs-"
+                   "interpolating kind, second print equals the first. text/template.Execute runs natively on the path's concrete data.",
+    "level_text": "bounded: depth-2 operator nesting exhaustive over the operator table, statement templates x nestings, string bodies up to N bytes over the alphabet",
+    "level_note": "trusts go/ssa, gosym, native text/template and strconv.Quote/Unquote on concretised data, z3",
+    "harnesses": [
+        {"name": "H1-operators", "pkg": "parser", "files": ["parser/c08.go"], "fn": "VerifC08Operators",
+         "what": "operator nesting shapes", "reach": ["parsed", "reparsed"],
+         "quick": {"unwind": 60, "wall_s": 900}, "thorough": {"unwind": 60, "wall_s": 1800}},
+        {"name": "H3-statements", "pkg": "parser", "files": ["parser/c08.go"], "fn": "VerifC08Statements",
+         "what": "31 statement templates x 4 nestings", "reach": ["parsed", "reparsed"],
+         "quick": {"unwind": 60, "wall_s": 900}, "thorough": {"unwind": 60, "wall_s": 1800}},
+    ] + [
+        {"name": "H2-strings-%d" % n, "pkg": "parser", "files": ["parser/c08.go"], "fn": "VerifC08Strings",
+         "what": "string literal bodies of %d bytes in 4 forms" % n, "reach": ["parsed", "reparsed"],
+         "quick": {"params": {"N": n}, "unwind": 60, "wall_s": 900} if n <= 2 else None,
+         "thorough": {"params": {"N": n}, "unwind": 60, "wall_s": 3000}}
+        for n in (1, 2, 3, 4)
+    ],
+    "assumptions": ["operator table and statement templates as listed in the harness", "string alphabet as stated"],
+    "outside": ["deeper nesting", "arbitrary Unicode in strings", "the in-place format tool's file handling (FormatFiles calls Parse+PrettyPrint and writes the result)"],
+}
